@@ -47,13 +47,27 @@ use roughenough::stats::{Reporter, StatsQueue};
 static KEEP_RUNNING: Lazy<AtomicBool> = Lazy::new(|| AtomicBool::new(true));
 
 fn polling_loop(cfg: Arc<Mutex<Box<dyn ServerConfig>>>, socket: UdpSocket, queue: Arc<StatsQueue>) {
+    #[cfg(roughenough_verif)]
+    roughenough::verif::emit("w_start", vec![]);
+
     let mut server = {
         let config = cfg.lock().unwrap();
+
+        #[cfg(roughenough_verif)]
+        roughenough::verif::emit("w_lock", vec![]);
+
         let server = Server::new(config.as_ref(), socket, queue);
 
         display_config(&server, config.as_ref());
+
+        #[cfg(roughenough_verif)]
+        roughenough::verif::emit("w_ready", vec![]);
+
         server
     };
+
+    #[cfg(roughenough_verif)]
+    roughenough::verif::emit("w_unlock", vec![]);
 
     let mut events = Events::with_capacity(1024);
 
@@ -61,6 +75,9 @@ fn polling_loop(cfg: Arc<Mutex<Box<dyn ServerConfig>>>, socket: UdpSocket, queue
         server.process_events(&mut events);
 
         if !KEEP_RUNNING.load(Ordering::Acquire) {
+            #[cfg(roughenough_verif)]
+            roughenough::verif::emit("w_exit", vec![]);
+
             warn!("Ctrl-C caught, exiting...");
             return;
         }
@@ -68,6 +85,22 @@ fn polling_loop(cfg: Arc<Mutex<Box<dyn ServerConfig>>>, socket: UdpSocket, queue
 }
 
 fn set_ctrlc_handler() {
+    #[cfg(roughenough_verif)]
+    {
+        ctrlc::set_handler(move || {
+            KEEP_RUNNING.store(false, Ordering::Release);
+            roughenough::verif::emit("sig", vec![]);
+        })
+        .expect("failed setting Ctrl-C handler");
+
+        let default_hook = std::panic::take_hook();
+        std::panic::set_hook(Box::new(move |info| {
+            roughenough::verif::emit("panic", vec![]);
+            default_hook(info);
+        }));
+    }
+
+    #[cfg(not(roughenough_verif))]
     ctrlc::set_handler(move || KEEP_RUNNING.store(false, Ordering::Release))
         .expect("failed setting Ctrl-C handler");
 }
@@ -168,10 +201,19 @@ pub fn main() {
     let stats_queue = Arc::new(StatsQueue::new(num_workers * 2));
     let mut threads = Vec::new();
 
+    #[cfg(roughenough_verif)]
+    roughenough::verif::emit(
+        "m_start",
+        vec![("n", roughenough::verif::V::U(num_workers as u64))],
+    );
+
     for i in 0..num_workers {
         let queue = stats_queue.clone();
         let cfg = config.clone();
         let socket = bind_socket(cfg.clone()).unwrap();
+
+        #[cfg(roughenough_verif)]
+        roughenough::verif::emit("m_spawn", vec![("i", roughenough::verif::V::U(i as u64))]);
         let thread = thread::Builder::new()
             .name(format!("worker-{}", i))
             .spawn(move || polling_loop(cfg, socket, queue))
@@ -179,6 +221,9 @@ pub fn main() {
 
         threads.push(thread);
     }
+
+    #[cfg(roughenough_verif)]
+    roughenough::verif::emit("m_spawned_all", vec![]);
 
     let client_stats_enabled = config.lock().unwrap().client_stats_enabled();
     let persistence_directory = config.lock().unwrap().persistence_directory();
@@ -198,9 +243,36 @@ pub fn main() {
         threads.push(report_thread);
     }
 
+    #[cfg(roughenough_verif)]
+    roughenough::verif::emit(
+        "m_join_begin",
+        vec![("reporter", roughenough::verif::V::B(client_stats_enabled))],
+    );
+
+    #[cfg(roughenough_verif)]
+    let mut verif_joined = 0u64;
+
     for t in threads {
+        #[cfg(roughenough_verif)]
+        {
+            let res = t.join();
+            roughenough::verif::emit(
+                "m_joined",
+                vec![
+                    ("i", roughenough::verif::V::U(verif_joined)),
+                    ("ok", roughenough::verif::V::B(res.is_ok())),
+                ],
+            );
+            verif_joined += 1;
+            res.expect("join failed")
+        }
+
+        #[cfg(not(roughenough_verif))]
         t.join().expect("join failed")
     }
+
+    #[cfg(roughenough_verif)]
+    roughenough::verif::emit("m_exit", vec![]);
 
     info!("Done.");
     process::exit(0);
